@@ -12,13 +12,44 @@ TRUSTED = ["FFT convolution equals direct convolution only up to binary64 roundi
 THEOREM = 'Props/C20.list'
 
 
+MUTATED = []
+IN_PLACE = {'change_dict_key'}          # the only helper documented to work in place
+
+
+def same(a, b):
+	"""Structural equality that also works for NumPy arrays and nested containers."""
+	if isinstance(a, np.ndarray) or isinstance(b, np.ndarray):
+		return isinstance(a, np.ndarray) and isinstance(b, np.ndarray) and a.shape == b.shape and a.dtype == b.dtype and bool(np.all(a == b))
+	if type(a) is not type(b):
+		return False
+	if isinstance(a, dict):
+		return list(a.keys()) == list(b.keys()) and all(same(a[k], b[k]) for k in a)
+	if isinstance(a, (list, tuple)):
+		return len(a) == len(b) and all(same(x, y) for x, y in zip(a, b))
+	if not isinstance(a, (int, float, str, bool, type(None), complex, np.generic, set, frozenset, F)):
+		return True          # opaque objects (SciPy distributions ...): identity is not compared
+	try:
+		return bool(a == b) or (a != a and b != b)
+	except Exception:
+		return True
+
+
 def call(f, *a, **k):
+	"""Calls the helper; records (never raises) when a helper not documented to work in place changed one of its arguments."""
+	nm = getattr(f, '__name__', '')
+	try:
+		before = copy.deepcopy((a, k))
+	except Exception:
+		before = None
 	try:
 		with warnings.catch_warnings():
 			warnings.simplefilter('ignore')
 			return f(*a, **k)
 	except Exception as e:
 		return {'error': err_enum(e)}
+	finally:
+		if before is not None and nm not in IN_PLACE and not same(before, (a, k)) and len(MUTATED) < 20:
+			MUTATED.append((nm, repr(before)[:300], repr((a, k))[:300]))
 
 
 def dyad(rng, lo, hi, den=4):
@@ -305,6 +336,108 @@ def run(rep, drv):
 		if py != mo or dct != {i: float(x) for i, x in enumerate(xs)}:
 			diff('round_dict_values', 'python=%s model=%s' % (py, mo), case4, py, mo, True)
 
+	# ---- ensure_list_for_time_periods: every documented argument shape, result and (non-)aliasing -----------------
+	for k in range(N // 2):
+		T = rng.randint(1, 6)
+		kind = rng.choice(['scalar', 'list-T', 'list-T1', 'ndarray-T', 'ndarray-T1', 'wrong', 'none'])
+		if kind == 'scalar':
+			x = rng.choice([rng.randint(-3, 9), float(dyad(rng, -3, 9))]); want = [0] + [x] * T
+		elif kind == 'none':
+			x = None; want = [0] + [None] * T
+		else:
+			m = {'list-T': T, 'ndarray-T': T, 'list-T1': T + 1, 'ndarray-T1': T + 1}.get(kind) or rng.choice([q for q in (0, T - 1, T + 2, T + 3) if q >= 0 and q not in (T, T + 1)])
+			x = [rng.randint(-2, 9) if rng.random() < .7 else float(dyad(rng, -3, 9)) for _ in range(m)]
+			want = 'ValueError' if kind == 'wrong' else (list(x) if m == T + 1 else [0] + list(x))
+			if kind.startswith('ndarray'):
+				x = np.array(x); want = want if isinstance(want, str) else np.array(want[1:] if m == T else want).tolist() if False else ([0] + x.tolist() if m == T else x.tolist())
+		case = {'x': repr(x), 'T': T, 'kind': kind}
+		rep.case('ensure_list_for_time_periods', case); rep.count('time-periods:' + kind)
+		xin = copy.deepcopy(x)
+		r = call(H.ensure_list_for_time_periods, x, T, rng.choice([None, 'demand']))
+		rep.exact_cmp += 1
+		errs = []
+		if isinstance(want, str):
+			if not (isinstance(r, dict) and r.get('error') == want): errs.append('a list of a wrong length must raise ValueError, got %r' % (r,))
+		elif isinstance(r, dict) or not isinstance(r, list) or not same(list(r), list(want)):
+			errs.append('returned %r, documented %r' % (r, want))
+		if not same(xin, x):
+			errs.append('the argument was changed in place: %r -> %r' % (xin, x))
+		if kind == 'list-T' and r is x:
+			errs.append('a list of length T must give a new list, not the argument itself')
+		if kind == 'list-T1' and r is not x:
+			errs.append('a list of length T+1 is documented to be returned itself')
+		if not errs and kind == 'list-T':
+			r2 = call(H.ensure_list_for_time_periods, x, T)         # the same list can be normalised again with the same result
+			if not same(r2, r): errs.append('a second call with the same list gives %r, the first gave %r' % (r2, r))
+		if errs:
+			diff('ensure_list_for_time_periods', '; '.join(errs[:2]), case, repr(r), repr(want), True)
+
+	# ---- build_node_data_dict against its documented rules -----------------------------------------------------
+	for k in range(N // 4):
+		n = rng.randint(1, 5)
+		order = rng.sample(range(0, 9), n)
+		attrs = {}; dflt = {}
+		names = rng.sample(['local_holding_cost', 'stockout_cost', 'demand_mean', 'lead_time', 'demand_list', 'probabilities', 'processing_time'], rng.randint(1, 5))
+		for a_ in names:
+			form = rng.choice(['none', 'dict', 'scalar', 'list', 'list-wrong'])
+			if a_ in ('demand_list', 'probabilities') and form in ('list', 'list-wrong') and rng.random() < .6:
+				attrs[a_] = [rng.randint(0, 5) for _ in range(rng.randint(1, 6))]         # a flat list: a singleton for these two attributes
+			elif form == 'none': attrs[a_] = None
+			elif form == 'scalar': attrs[a_] = rng.choice([0, 1, 2.5, 7])
+			elif form == 'dict': attrs[a_] = {i: rng.choice([0, 3, 8]) for i in order if rng.random() < .6}
+			else:
+				m = n if form == 'list' else n + rng.choice([1, 2])
+				if a_ in ('demand_list', 'probabilities'):
+					attrs[a_] = [rng.choice([None, [1, 2, 3]]) for _ in range(m)]
+					if not any(isinstance(e, list) for e in attrs[a_]): attrs[a_][0] = [4, 5]
+				else:
+					attrs[a_] = [rng.choice([0, 1, 4, 9]) for _ in range(m)]
+			if rng.random() < .4: dflt[a_] = rng.choice([0, 99])
+		def ref():
+			out = {i: {} for i in order}
+			for a_, v in attrs.items():
+				if v is None:
+					for i in order: out[i][a_] = dflt.get(a_)
+				elif type(v) == dict:
+					for i in order: out[i][a_] = v[i] if i in v else dflt.get(a_)
+				elif isinstance(v, list) and (a_ not in ('demand_list', 'probabilities') or any(isinstance(e, list) for e in v)):
+					if len(v) != len(order): return 'ValueError'
+					for kk, i in enumerate(order): out[i][a_] = v[kk]
+				else:
+					for i in order: out[i][a_] = v
+			return out
+		want = ref()
+		case = {'attrs': repr(attrs), 'order': order, 'defaults': repr(dflt)}
+		rep.case('build_node_data_dict', case)
+		r = call(H.build_node_data_dict, attrs, order, dflt)
+		rep.exact_cmp += 1
+		if (want == 'ValueError') != (isinstance(r, dict) and r.get('error') == 'ValueError') or (want != 'ValueError' and r != want):
+			diff('build_node_data_dict', 'build_node_data_dict gives %r, its documented rules give %r' % (r, want), case, repr(r), repr(want), True)
+
+	# ---- small predicates and the set (de)serialisers -------------------------------------------------------------
+	import scipy.stats as st
+	for v, w in [('3', True), ('-2.5', True), ('1e3', True), ('abc', False), ('', False), (3, False), (None, False), ('null', False), (' 4 ', True), ('4,5', False)]:
+		rep.case('predicates', {'is_numeric_string': repr(v)})
+		if call(H.is_numeric_string, v) != w:
+			diff('predicates', 'is_numeric_string(%r) = %r' % (v, call(H.is_numeric_string, v)), {}, None, None, True)
+	for dobj, disc in [(st.poisson(3), True), (st.norm(1, 2), False), (st.randint(0, 4), True), (st.uniform(0, 1), False), (st.nbinom(3, .5), True),
+					   (st.rv_discrete(values=([0, 1], [.5, .5])), True), (st.poisson, True), (st.norm, False), (H.sum_of_continuous_uniforms_distribution(2, 0, 1), False),
+					   (H.sum_of_discrete_uniforms_distribution(2, 0, 3), True)]:
+		rep.case('predicates', {'distribution': str(getattr(getattr(dobj, 'dist', dobj), 'name', dobj))})
+		if bool(call(H.is_discrete_distribution, dobj)) != disc or bool(call(H.is_continuous_distribution, dobj)) != (not disc):
+			diff('predicates', 'is_discrete/continuous_distribution wrong for %r' % (dobj,), {}, None, None, True)
+	import json as _json
+	for k in range(20):
+		obj = {'a': set(rng.sample(range(20), rng.randint(0, 5))), 'b': [1, {'c': set([rng.randint(0, 3)])}], 'd': {'type': 'set', 'x': 1}, 'e': np.float64(2.5), 'f': np.array([1, 2])}
+		rep.case('serialize_set', {'obj': repr(obj)})
+		try:
+			back = _json.loads(_json.dumps(obj, default=H.serialize_set), object_hook=H.deserialize_set)
+			ok = back == {'a': obj['a'], 'b': obj['b'], 'd': obj['d'], 'e': 2.5, 'f': [1, 2]}
+		except Exception as e:
+			ok = False; back = err_enum(e)
+		if not ok:
+			diff('serialize_set', 'JSON round trip through serialize_set / deserialize_set gives %r for %r' % (back, obj), {}, None, None, True)
+
 	# ---- reference-only checks (labelled tests) ---------------------------
 	for k in range(N // 4):
 		T = rng.randint(1, 5)
@@ -341,6 +474,10 @@ def run(rep, drv):
 		if H.sort_nested_dict_by_keys(nd) != [3.0, 4.0, 1.0, 2.0] or H.sort_nested_dict_by_keys(nd, ascending=False, return_values=False) != [(2, 3), (2, None), (1, 4), (None, 5)]:
 			diff('predicates', 'sort_nested_dict_by_keys wrong', {}, None, None, True)
 		break
+
+	for nm, b, a_ in MUTATED:
+		diff('argument-mutation', '%s changed its argument although not documented to work in place: %s -> %s' % (nm, b, a_), {'fn': nm, 'before': b, 'after': a_}, None, None, True)
+	rep.count('argument-mutation-checked-calls')
 
 
 def classify(stream, case, py):
